@@ -159,6 +159,23 @@ def calls(thorough):
             s = S(st)
             yield "strings.split_on", "strings.ops{str = %s}.split_on{on = %s}" % (s, S(sep)), st.split(sep)
             yield "strings.split-join-law", "lists.str_join{list = strings.ops{str = %s}.split_on{on = %s}, sep = %s}" % (s, S(sep), S(sep)), st
+    # characters of every UTF-8 width and with every kind of low byte (below / above 0x80, zero): one per class, alone, doubled
+    # and between ASCII letters, through every string helper (added after a sixth-round seeded change: a table of one-character
+    # strings indexed by the code point cut down to its low byte)
+    wide = ["\u00e9", "\u0100", "\u0141", "\u017c", "\u03b1", "\u042f", "\u4e2d", "\u65e5", "\uff21", "\U0001f600", "\U0001d11e", "\u0080", "\u07ff", "\u0800", "\uffff"]
+    for ch in wide:
+        for st in (ch, ch + ch, "a" + ch + "b", ch + "-" + ch, "a" + ch):
+            s = S(st)
+            yield "strings.len-wide", "strings.ops{str = %s}.len" % s, len(st)
+            yield "strings.chars-wide", "strings.ops{str = %s}.chars" % s, list(st)
+            for i in range(0, len(st) + 1):
+                yield "strings.split_at-wide", "strings.ops{str = %s}.split_at(%d)" % (s, i), {"left": st[:i], "right": st[i:]}
+            for a in range(0, len(st)):
+                for b in range(a, len(st)):
+                    yield "strings.substr-wide", "strings.ops{str = %s}.substr{start = %d, end = %d}.str" % (s, a, b), st[a:b + 1]
+            for sep in ["-", ch, "a"]:
+                yield "strings.split_on-wide", "strings.ops{str = %s}.split_on{on = %s}" % (s, S(sep)), st.split(sep)
+                yield "strings.split-join-law-wide", "lists.str_join{list = strings.ops{str = %s}.split_on{on = %s}, sep = %s}" % (s, S(sep), S(sep)), st
     import re as _re
     pool = ["0", "7", "12", "007", "12a", "1-2", "9é", "42 ", "123456789", "5b5"]
     # every digit-led string of length <= 3 over ASCII digits, a letter, a sign, a blank and
